@@ -566,6 +566,26 @@ class Analyzer:
             return (e, ("XAny",), 2, ee) if ch[0][1] == "row" else (("XAny",), e, 2, ee)
         return ("XAny",), ("XAny",), 0, None
 
+    @staticmethod
+    def argname(toks):
+        toks = strip_parens(toks)
+        return toks[0].s if len(toks) == 1 and toks[0].k in ("id", "num") else "?"
+
+    def form_of(self, ch, used):
+        """textual form of the indexed part of an access, for the cross-check against the clang AST"""
+        if used == 0 or not ch:
+            return ["whole"]
+        if ch[0][0] == "call":
+            return ["()"] + [self.argname(a) for a in split_top(ch[0][1], ",") if a]
+        if ch[0][0] == "index":
+            out = ["[]", self.argname(ch[0][1])]
+            if used == 2:
+                out.append(self.argname(ch[1][1]))
+            return out
+        if ch[0][0] == "member":
+            return [ch[0][1], self.argname(ch[1][1])]
+        return ["whole"]
+
     def enclosing_call(self, toks, p):
         """name of the function whose argument list directly or indirectly contains position p"""
         depth = 0
@@ -610,6 +630,7 @@ class Analyzer:
             if el[0] in ("call", "index"):
                 self.scan(el[1])
         i1, i2, used, exact = self.pattern(ch)
+        form = self.form_of(ch, used)
         rest = ch[used:]
         members = [el[1] for el in rest if el[0] == "member"]
         if exact is None:      # whole object: exact unless narrowed by a partial view
@@ -665,6 +686,7 @@ class Analyzer:
         if kind == "shared":
             self.access(name, write, akind, i1, i2, line, what)
             self.r.accesses[-1]["exact"] = bool(exact) if akind == "AElem" else (akind == "AAppend")
+            self.r.accesses[-1]["form"] = ["append"] if akind == "AAppend" else (["opaque"] if akind == "AOpaque" else form)
         elif kind == "priv":
             self.event(name, ev, line)
         return end
@@ -1207,7 +1229,9 @@ def translate(repo):
             keep.append(a)
         pv = [{"name": n, "class": classify_private(r.events.get(n, [])),
                "events": [e[0] + ("?" if e[1] else "") for e in r.events.get(n, [])][:12]} for n in r.priv]
-        out.append({"name": r.name, "line": r.line, "iv": r.iv, "shared": keep, "private": pv})
+        wf = sorted({json.dumps([a["var"], a["crit"], a.get("form", ["whole"])]) for a in acc if a["write"]})
+        out.append({"name": r.name, "line": r.line, "iv": r.iv, "shared": keep, "private": pv,
+                    "write_forms": [json.loads(x) for x in wf]})
     return {"regions": out, "hlle": hlle}
 
 
